@@ -55,9 +55,8 @@ mod verif_c13_loss {
         Duration::from_millis(ms)
     }
 
-    /// record-level contract of detect_lost_packets on a space holding exactly N records with increasing numbers
-    fn detect_lost_body<const N: usize>(check_later_acked: bool) {
-        let mad = any_small_duration();
+    /// an arbitrary space holding exactly N records with increasing packet numbers; returns the ghost copies
+    fn any_space<const N: usize>(mad: Duration) -> (PacketSpace, [u64; N], [State; N], [Option<Instant>; N]) {
         let mut sp = PacketSpace::with_epoch(Epoch::Data, mad);
         let mut pns = [0u64; N];
         let mut states: [State; N] = core::array::from_fn(|_| State::Inflight);
@@ -78,14 +77,21 @@ mod verif_c13_loss {
             i += 1;
         }
         sp.largest_acked_packet = if kani::any() { Some(kani::any()) } else { None };
+        (sp, pns, states, times)
+    }
+
+    /// record-level contract of detect_lost_packets on a space holding exactly 2 records
+    #[kani::proof]
+    #[kani::unwind(4)]
+    #[kani::stub(qevent::telemetry::macro_support::build_and_emit_event, noop_emit)]
+    #[kani::stub(tokio::time::Instant::now, recorded_now)]
+    fn detect_lost_records() {
+        const N: usize = 2;
+        let mad = any_small_duration();
+        let (mut sp, pns, states, times) = any_space::<N>(mad);
         let largest = sp.largest_acked_packet;
-        if check_later_acked {
-            // confinement of the finding: no acknowledgement at all, or only of packets older than every record
-            kani::assume(match largest { Some(l) => pns[0] > l, None => true });
-        }
         let loss_delay = any_small_duration();
         let mut algo: Box<dyn Control> = Box::new(NewReno::new(Arc::new(AtomicU16::new(1200))));
-        // the accounting invariant of the controller (c13_inflight): enough bytes in flight for what is outstanding
         let lost = sp.detect_lost_packets(loss_delay, 3, &mut algo);
         let mut is_lost = [false; N];
         let mut count = 0;
@@ -105,19 +111,13 @@ mod verif_c13_loss {
         while j < N {
             let st = sp.sent_packets[j].state.clone();
             if states[j] != State::Inflight {
+                // "an acknowledged packet is never declared lost" (nor one that was declared lost before)
                 assert!(!is_lost[j], "C13.loss.detect.acknowledged_or_already_lost_record_is_never_declared_lost");
                 assert!(st == states[j], "C13.loss.detect.state_of_non_outstanding_record_unchanged");
             }
             if is_lost[j] {
                 nlost += 1;
                 assert!(st == State::Retransmitted, "C13.loss.detect.declared_lost_record_is_marked");
-                if check_later_acked {
-                    // RFC 9002 §6.1: "sent prior to an acknowledged packet"
-                    assert!(
-                        match largest { Some(l) => pns[j] < l, None => false },
-                        "C13.loss.detect.lost_only_if_a_later_packet_was_acknowledged"
-                    );
-                }
                 // time threshold (as implemented: loss_delay + max_ack_delay before now) or >= 3 records older
                 let mut newer_not_above_largest = 0;
                 let mut k = j + 1;
@@ -137,23 +137,13 @@ mod verif_c13_loss {
             j += 1;
         }
         assert!(count == nlost, "C13.loss.detect.sup.reported_numbers_are_distinct_records");
-        if !check_later_acked {
-            kani::cover!(nlost == N, "C13.loss.detect.reach_all_lost");
-            kani::cover!(nlost == 0 && states[0] == State::Inflight, "C13.loss.detect.reach_none_lost");
-        }
+        kani::cover!(nlost == N, "C13.loss.detect.reach_all_lost");
+        kani::cover!(nlost == 0 && states[0] == State::Inflight, "C13.loss.detect.reach_none_lost");
         core::mem::forget(sp);
         core::mem::forget(algo);
     }
 
-    #[kani::proof]
-    #[kani::unwind(4)]
-    #[kani::stub(qevent::telemetry::macro_support::build_and_emit_event, noop_emit)]
-    #[kani::stub(tokio::time::Instant::now, recorded_now)]
-    fn detect_lost_records() {
-        detect_lost_body::<2>(false);
-    }
-
-    /// CANDIDATE FINDING (expect_fail). RFC 9002 §6.1 / A.10 skip every packet whose number is above the largest
+    /// CANDIDATE FINDING (expect_fail). RFC 9002 sect. 6.1 / A.10 skip every packet whose number is above the largest
     /// acknowledged one ("sent prior to an acknowledged packet"); the property says "declared lost only when a later
     /// packet has been acknowledged". detect_lost_packets applies the time threshold to *every* outstanding record,
     /// and on_packet_sent arms `loss_time` without any acknowledgement, so on_loss_detection_timeout declares packets
@@ -163,6 +153,18 @@ mod verif_c13_loss {
     #[kani::stub(qevent::telemetry::macro_support::build_and_emit_event, noop_emit)]
     #[kani::stub(tokio::time::Instant::now, recorded_now)]
     fn detect_lost_without_later_ack() {
-        detect_lost_body::<1>(true);
+        let mad = any_small_duration();
+        let (mut sp, pns, states, _times) = any_space::<1>(mad);
+        let largest = sp.largest_acked_packet;
+        // confinement of the finding: no acknowledgement at all, or only of packets older than the record
+        kani::assume(match largest { Some(l) => pns[0] > l, None => true });
+        kani::assume(states[0] == State::Inflight);
+        let loss_delay = any_small_duration();
+        let mut algo: Box<dyn Control> = Box::new(NewReno::new(Arc::new(AtomicU16::new(1200))));
+        let mut lost = sp.detect_lost_packets(loss_delay, 3, &mut algo);
+        let declared = lost.next().is_some();
+        assert!(!declared, "C13.loss.detect.lost_only_if_a_later_packet_was_acknowledged");
+        core::mem::forget(sp);
+        core::mem::forget(algo);
     }
 }
